@@ -144,47 +144,76 @@ let () =
             (List.length ws)
       | id :: toks ->
           (try
-             let flags = ref 0 and args = ref [] and cons = ref [] and argv = ref []
-             and file = ref None and env = ref None and sline = ref None and pinned = ref false in
+             let members = ref [] in   (* (is_group, flags, args rev, cons rev) newest first *)
+             let argv = ref [] and file = ref None and env = ref None and sline = ref None
+             and pinned = ref false and pinned_grp = ref false and pinned_end = ref false in
+             let push_arg t = match !members with
+               | (g, f, a, c) :: r -> members := (g, f, t :: a, c) :: r | [] -> raise (Unsupported "arg before handler") in
+             let push_con t = match !members with
+               | (g, f, a, c) :: r -> members := (g, f, a, t :: c) :: r | [] -> raise (Unsupported "con before handler") in
              List.iter (fun t ->
-                 if starts "H:f=" t then flags := int_of_string (after "H:f=" t)
-                 else if starts "G:" t then raise (Unsupported "groups")
-                 else if starts "arg:" t then args := t :: !args
-                 else if starts "con:" t then cons := t :: !cons
+                 if starts "H:f=" t then members := (false, int_of_string (after "H:f=" t), [], []) :: !members
+                 else if starts "G:" t then
+                   (match String.split_on_char ':' t with
+                    | [_; _; f] -> members := (true, int_of_string (after "f=" f), [], []) :: !members
+                    | _ -> raise (Unsupported "group token"))
+                 else if starts "arg:" t then push_arg t
+                 else if starts "con:" t then push_con t
                  else if starts "argv:" t then argv := List.map unhex (split_on ',' (after "argv:" t))
                  else if starts "file:" t then file := Some (unhex (after "file:" t))
                  else if starts "env:" t then env := Some (unhex (after "env:" t))
                  else if starts "line:" t then sline := Some (unhex (after "line:" t))
                  else if t = "model:pinned" then pinned := true
+                 else if t = "model:pinned-group-values" then pinned_grp := true
+                 else if t = "model:pinned-group-end" then pinned_end := true
                  else if starts "prog:" t then ()
                  else if t = "out:usage" then raise (Unsupported "usage")) toks;
-             if !flags land (lnot 0xF0) <> 0 then raise (Unsupported "handler flags");
-             (* definitions in order: a refused definition is a setup error *)
-             let defs = List.map parse_arg (List.rev !args) in
-             let _ = List.fold_left (fun t (_, d, _) ->
-                 match add_argument t d.a_key () with Ok t' -> t' | _ -> raise Setup) [] defs in
-             let gcons = List.map (fun t ->
-                 match String.split_on_char ':' t with
-                 | [_; "all_of"; spec] -> GCAll (keys_of_list spec)
-                 | [_; "any_of"; spec] -> GCAny (keys_of_list spec)
-                 | [_; "one_of"; spec] -> GCOne (keys_of_list spec)
-                 | _ -> raise (Unsupported "constraint")) (List.rev !cons) in
-             let c = { args = List.map (fun (_, d, _) -> d) defs; gcons = gcons;
-                       abbr = (!flags land 0x80 = 0); fixed_notify = not !pinned } in
-             let inits = List.map (fun (_, _, i) -> i) defs in
-             let file = if !flags land 0x10 <> 0 then !file else None in
-             let env = if !flags land 0x20 <> 0 then !env else None in
-             let r = match !sline with
-               | Some l -> eval_string c inits (str_of_string l)
-               | None -> eval_sources c inits (Option.map str_of_string file) (Option.map str_of_string env)
-                           (List.map str_of_string !argv) in
-             let slots = List.map (fun (s, _, _) -> s) defs in
-             (match r with
-              | Ok s ->
-                  let vals = List.sort compare (List.map2 (fun sl a -> sl ^ "=" ^ show_value a.val0) slots s.arts) in
-                  Printf.printf "%s ok %s ## -\n" id (String.concat " " vals)
-              | Err e -> Printf.printf "%s err ## %s\n" id (err_name e)
-              | Fault _ -> Printf.printf "%s FAULT ## fault\n" id)
+             let members = List.rev !members in
+             if members = [] then raise (Unsupported "no handler");
+             let is_group = List.exists (fun (g, _, _, _) -> g) members in
+             List.iter (fun (_, f, _, _) -> if f land (lnot 0xF0) <> 0 then raise (Unsupported "handler flags")) members;
+             (* definitions in order: a refused definition is a setup error; in a group the key must be free in
+                every member (crossCheckArguments) = free in the merged table *)
+             let merged = ref [] in
+             let build (_, flags, args, cons) =
+               let defs = List.map parse_arg (List.rev args) in
+               List.iter (fun (_, d, _) ->
+                   match add_argument !merged d.a_key () with Ok t' -> merged := t' | _ -> raise Setup) defs;
+               let gcons = List.map (fun t ->
+                   match String.split_on_char ':' t with
+                   | [_; "all_of"; spec] -> GCAll (keys_of_list spec)
+                   | [_; "any_of"; spec] -> GCAny (keys_of_list spec)
+                   | [_; "one_of"; spec] -> GCOne (keys_of_list spec)
+                   | _ -> raise (Unsupported "constraint")) (List.rev cons) in
+               let c = { args = List.map (fun (_, d, _) -> d) defs; gcons = gcons;
+                         abbr = (flags land 0x80 = 0); fixed_notify = not !pinned } in
+               (c, List.map (fun (_, _, i) -> i) defs, List.map (fun (s, _, _) -> s) defs, flags) in
+             let built = List.map build members in
+             let show slots arts = List.map2 (fun sl a -> sl ^ "=" ^ show_value a.val0) slots arts in
+             if is_group then begin
+               let cs = List.map (fun (c, _, _, _) -> c) built in
+               let initss = List.map (fun (_, i, _, _) -> i) built in
+               (match eval_group !pinned_grp !pinned_end cs initss (List.map str_of_string !argv) with
+                | Ok ss ->
+                    let vals = List.sort compare (List.concat (List.map2 (fun (_, _, sl, _) s -> show sl s.arts) built ss)) in
+                    Printf.printf "%s ok %s ## -\n" id (String.concat " " vals)
+                | Err e -> Printf.printf "%s err ## %s\n" id (err_name e)
+                | Fault _ -> Printf.printf "%s FAULT ## fault\n" id)
+             end else begin
+               let (c, inits, slots, flags) = List.hd built in
+               let file = if flags land 0x10 <> 0 then !file else None in
+               let env = if flags land 0x20 <> 0 then !env else None in
+               let r = match !sline with
+                 | Some l -> eval_string c inits (str_of_string l)
+                 | None -> eval_sources c inits (Option.map str_of_string file) (Option.map str_of_string env)
+                             (List.map str_of_string !argv) in
+               (match r with
+                | Ok s ->
+                    let vals = List.sort compare (show slots s.arts) in
+                    Printf.printf "%s ok %s ## -\n" id (String.concat " " vals)
+                | Err e -> Printf.printf "%s err ## %s\n" id (err_name e)
+                | Fault _ -> Printf.printf "%s FAULT ## fault\n" id)
+             end
            with
            | Unsupported w -> Printf.printf "%s unsupported ## %s\n" id w
            | Setup -> Printf.printf "%s setup ## -\n" id)
